@@ -328,7 +328,7 @@ def check_step_count(ctx, rep, f, param='max_steps', rule=RULE):
     return 1
 
 
-def check_scenarios(ctx, rep, f, kind, param='max_steps', rule='R-TM.model'):
+def _check_scenarios_symbolic(ctx, rep, f, kind, param='max_steps', rule='R-TM.model'):
     """kind = 'verdict' (returns True / False / None) or 'trace' (returns the list of configurations).  For budgets k = 0..3
     and the scenarios never-halts / accepts after j steps / rejects after j steps (j = 0..3), on every path:
       the step function is never called in a halting state; the number of steps is min(j, k);
@@ -369,7 +369,9 @@ def check_scenarios(ctx, rep, f, kind, param='max_steps', rule='R-TM.model'):
                         bad = 'with {} the loop runs {} step(s) instead of {}'.format(desc, p.steps, want_steps)
                     elif kind == 'verdict':
                         want = (True if sk == 'accept' else False) if halts else NONE
-                        if p.ret is UNK or p.ret != want:
+                        if p.ret is UNK or (isinstance(p.ret, tuple) and p.ret and p.ret[0] == 'unk'):
+                            raise Unsupported('the returned verdict is not tracked by the counter model')
+                        if p.ret != want:
                             bad = 'with {} the verdict is {} instead of {}'.format(desc, 'None' if p.ret == NONE else p.ret, 'None' if want == NONE else want)
                     elif kind == 'trace':
                         if not (isinstance(p.ret, tuple) and p.ret[0] == 'list'):
@@ -383,6 +385,99 @@ def check_scenarios(ctx, rep, f, kind, param='max_steps', rule='R-TM.model'):
     SCEN['kind'], SCEN['at'] = 'never', 0
     if bad is None:
         rep.holds(rule, f, 'def ' + f.name, 'counter model: for budgets 0..3 x scenarios (never halts, accepts / rejects after 0..3 steps) all {} paths take min(j, k) steps, never step in a halting state, and return the {}'.format(runs, 'right verdict (True / False / None)' if kind == 'verdict' else 'initial configuration plus one configuration per step'))
+    else:
+        rep.violates(rule, f, 'def ' + f.name, bad)
+    return 1
+
+
+
+def check_scenarios(ctx, rep, f, kind, param='max_steps', rule='R-TM.model'):
+    """The bounded run of a Turing machine against ONE counter model, decided with the analyser's finite-model evaluator:
+    the step function is replaced by a scripted machine (never halts / accepts after j steps / rejects after j steps,
+    j = 0..3), the budget is k = 0..3 and the word has length 0 or 2.  Required on every run: the step function is never
+    called in a halting state and never with a stale state, it is called min(j, k) times, the first call sees the tape
+    "the word, or one blank for the empty word" and head 0; verdict: True / False when the machine halts within the budget,
+    None otherwise; trace: the initial configuration plus one configuration per step, each recorded with its own copy of
+    the tape.  The loop only counts and compares states, so these scenarios cover every interleaving of budget and
+    halting time up to 3.  Outside the evaluator's fragment the symbolic counter model is used."""
+    from ..miniexec import Interp, Obj, Raised
+    if param not in f.params:
+        return _check_scenarios_symbolic(ctx, rep, f, kind, param, rule)
+    wparam = next((p_ for p_ in f.params if p_ in ('word', 'w')), None)
+    bad = None
+    runs = 0
+    try:
+        for k in range(0, 4):
+            for sk, j in [('never', 0)] + [(x, j) for x in ('accept', 'reject') for j in range(0, 4)]:
+                for word in ('', 'ab'):
+                    log = {'calls': [], 'err': None}
+                    halt_state = 'qa' if sk == 'accept' else 'qr'
+                    start = halt_state if (sk != 'never' and j == 0) else 'q0'
+
+                    def step(interp, args, kwargs, log=log, sk=sk, j=j, halt_state=halt_state):
+                        T_, p_, tape_, head_ = (list(args) + [None] * 4)[:4]
+                        n_ = len(log['calls'])
+                        expect = 'q0' if n_ == 0 else 's%d' % n_
+                        if p_ in ('qa', 'qr'):
+                            log['err'] = 'the step function is called in the halting state {}'.format(p_)
+                        elif p_ != expect and log['err'] is None:
+                            log['err'] = 'step {} is taken from the state {} instead of the state the previous step returned'.format(n_ + 1, p_)
+                        log['calls'].append((p_, list(tape_) if isinstance(tape_, list) else tape_, head_))
+                        if isinstance(tape_, list) and tape_:
+                            tape_[0] = 'w%d' % (n_ + 1)          # every step writes, so shared tape objects show up in a trace
+                        nxt = halt_state if (sk != 'never' and n_ + 1 == j) else 's%d' % (n_ + 1)
+                        return (nxt, 0)
+                    T = Obj('TM', q0=start, q_accept='qa', q_reject='qr', blank='_', delta={}, Q=set(), Sigma={'a', 'b'}, Gamma={'a', 'b', '_'})
+                    it = Interp(ctx, stubs={STEP: step})
+                    kwargs = {param: k}
+                    try:
+                        r = it.call(f, [T, word], kwargs)
+                    except Raised as ex:
+                        bad = 'the function raises {} '.format(ex.name)
+                        r = None
+                    runs += 1
+                    halts = sk != 'never' and j <= k
+                    want_steps = j if halts else k
+                    desc = 'budget {}, a word of length {} and a machine that {}'.format(k, len(word), 'never halts' if sk == 'never' else '{}s after {} step(s)'.format(sk, j))
+                    if start != 'q0':
+                        # a machine whose initial state is halting: the scripted states start at the halting state
+                        pass
+                    if bad:
+                        bad = 'with {}: {}'.format(desc, bad)
+                    elif log['err'] and not (start != 'q0' and 'instead of the state' in log['err']):
+                        bad = 'with {}: {}'.format(desc, log['err'])
+                    elif len(log['calls']) != want_steps:
+                        bad = 'with {} the loop runs {} step(s) instead of {}'.format(desc, len(log['calls']), want_steps)
+                    elif log['calls'] and (log['calls'][0][1] != (list(word) or ['_']) or log['calls'][0][2] != 0):
+                        bad = 'with {} the first step sees the tape {} and head {} instead of {} and 0 (the word, or one blank for the empty word)'.format(desc, log['calls'][0][1], log['calls'][0][2], list(word) or ['_'])
+                    elif kind == 'verdict':
+                        want = (sk == 'accept') if halts else None
+                        if r is not want and not (isinstance(r, bool) and isinstance(want, bool) and r == want):
+                            bad = 'with {} the verdict is {} instead of {}'.format(desc, r, want)
+                    elif kind == 'trace':
+                        if not isinstance(r, list):
+                            raise Unsupported('the trace is not a list')
+                        if len(r) != want_steps + 1:
+                            bad = 'with {} the trace has {} configurations instead of {} (initial configuration + one per step)'.format(desc, len(r), want_steps + 1)
+                        else:
+                            tapes = [c[1] for c in r if isinstance(c, tuple) and len(c) == 3]
+                            if len(tapes) != len(r):
+                                raise Unsupported('shape of a configuration')
+                            if r[0][0] != start or r[0][1] != (list(word) or ['_']) or r[0][2] != 0:
+                                bad = 'with {} the trace starts with {} instead of the initial configuration ({}, {}, 0)'.format(desc, r[0], start, list(word) or ['_'])
+                            elif len({id(t) for t in tapes}) != len(tapes) or any(tapes[i][0] != ('w%d' % i) for i in range(1, len(tapes))):
+                                bad = 'with {} the recorded configurations share one tape object (or record it before the step wrote): earlier rows of the trace change when the machine goes on'.format(desc)
+                    if bad:
+                        break
+                if bad:
+                    break
+            if bad:
+                break
+    except Unsupported as e:
+        rep.note('{}: finite-model evaluation not applicable ({}); symbolic counter model used'.format(f.short, e))
+        return _check_scenarios_symbolic(ctx, rep, f, kind, param, rule)
+    if bad is None:
+        rep.holds(rule, f, 'def ' + f.name, 'counter model: for budgets 0..3 x scenarios (never halts, accepts / rejects after 0..3 steps) x word length 0 / 2 all {} runs take min(j, k) steps, never step in a halting state, and return the {}'.format(runs, 'right verdict (True / False / None)' if kind == 'verdict' else 'initial configuration plus one configuration per step, each with its own tape'))
     else:
         rep.violates(rule, f, 'def ' + f.name, bad)
     return 1
